@@ -55,6 +55,9 @@ type Cfg struct {
 	NoHTTP   bool                    `json:"-"`
 	// Domain is the name the servers greet with (default inbucket.test); never part of a case.
 	Domain string `json:"-"`
+	// SMTPTimeout / POP3Timeout are the idle timeouts (default 60s), set by a check's Run.
+	SMTPTimeout string `json:"-"`
+	POP3Timeout string `json:"-"`
 }
 
 // DefaultCfg accepts and stores everything, local naming, mem store.
@@ -126,8 +129,15 @@ func ProcessCfg(c Cfg) (*config.Root, error) {
 		set("SMTP_TLSCERT", cert)
 		set("SMTP_TLSPRIVKEY", key)
 	}
-	set("SMTP_TIMEOUT", "60s")
-	set("POP3_TIMEOUT", "60s")
+	st, pt := "60s", "60s"
+	if c.SMTPTimeout != "" {
+		st = c.SMTPTimeout
+	}
+	if c.POP3Timeout != "" {
+		pt = c.POP3Timeout
+	}
+	set("SMTP_TIMEOUT", st)
+	set("POP3_TIMEOUT", pt)
 	dom := c.Domain
 	if dom == "" {
 		dom = "inbucket.test"
